@@ -7,7 +7,7 @@ import ast
 from ..context import Ctx
 from ..loader import AnalysisError, FuncInfo, norm, own_nodes
 from ..report import RuleResult
-from .common import PROTO_ERR, closure_rule, dead_by_flag, fold_flag, policy_fsm
+from .common import PROTO_ERR, borrow, closure_rule, dead_by_flag, fold_flag, policy_fsm
 
 META = {
     "explanation": (
@@ -79,9 +79,9 @@ def check(ctx: Ctx) -> list[RuleResult]:
                         why = f"{len(defs)} definitions of {t.id}"
                     if isinstance(d, ast.Call) and norm(d.func) == "min":
                         args = [norm(a) for a in d.args]
-                        has_cap = any(a.endswith("SEND_TIMEOUT_LIMIT") for a in args)
-                        has_qos = any("timeout" in a and a != "self.SEND_TIMEOUT_LIMIT" for a in args)
-                        if has_cap and has_qos and isinstance(lim_val, (int, float)) and 0 < lim_val <= 20.0:
+                        has_cap = "self.SEND_TIMEOUT_LIMIT" in args
+                        has_qos = "qos.timeout" in args
+                        if has_cap and has_qos and len(args) == 2 and isinstance(lim_val, (int, float)) and 0 < lim_val <= 20.0:
                             ok = True
                         else:
                             why = f"min({', '.join(args)}) with SEND_TIMEOUT_LIMIT={lim_val!r}"
@@ -173,4 +173,7 @@ def check(ctx: Ctx) -> list[RuleResult]:
     fold_flag(ctx, r5, P, "_DBG_DISABLE_QOS", False, "QoS (echo matching, retries, the bounded wait) would be bypassed and send_cmd would return None")
     fold_flag(ctx, r5, P, "_DBG_DISABLE_IMPERSONATION_ALERTS", False, "the mandatory impersonation notice would be skipped")
     out.append(r5)
+    borrow(ctx, out, "c06", ["R3"], "the packet handed to the caller is the one whose whole header matched")
+    borrow(ctx, out, "c08", ["R4", "R5"], "one in flight; an unorderable queue entry raises TypeError out of send_cmd and wedges the dequeue")
+    borrow(ctx, out, "c09", ["R1", "R3", "R4", "R6"], "an exception inside the FSM's callbacks leaves the caller unanswered until its timeout")
     return out
